@@ -49,6 +49,12 @@ pub struct Side {
     pub present: [bool; 3],
     /// status masks (bits over `St`) at the three levels
     pub masks: [u16; 3],
+    /// how the final (listener, mask) of each level is installed: 0 = at creation; 1 = entity created
+    /// without a listener, then set_listener; 2 = entity created with a decoy listener enabling every
+    /// status, replaced by set_listener before anything happens. The expected routing depends on the
+    /// final configuration only.
+    #[serde(default)]
+    pub via: [u8; 3],
 }
 
 #[derive(Clone, Debug, Serialize, Deserialize)]
@@ -82,8 +88,8 @@ fn enumerated(i: u32) -> C33Case {
     let wm = bits(&WRITER_ST);
     let lvl = |l: u32, all: u16| if m & (1 << l) != 0 { all } else { 0 };
     C33Case {
-        reader: Side { present, masks: [lvl(0, rm), lvl(1, rm) | if dor { St::DataOnReaders.bit() } else { 0 }, lvl(2, rm)] },
-        writer: Side { present, masks: [lvl(0, wm), lvl(1, wm), lvl(2, wm)] },
+        reader: Side { present, masks: [lvl(0, rm), lvl(1, rm) | if dor { St::DataOnReaders.bit() } else { 0 }, lvl(2, rm)], via: [0; 3] },
+        writer: Side { present, masks: [lvl(0, wm), lvl(1, wm), lvl(2, wm)], via: [0; 3] },
         deadline: true,
         samples: 2,
         reject: true,
@@ -107,11 +113,12 @@ const ENUMERATED: u32 = 128;
 
 fn side(valid: u16) -> impl Strategy<Value = Side> {
     let mask = move || prop_oneof![3 => any::<u16>().prop_map(move |m| m & valid), 1 => Just(valid), 1 => Just(0u16)];
-    (any::<[bool; 3]>(), mask(), mask(), mask(), prop::bool::weighted(0.7)).prop_map(|(mut present, a, b, c, all_present)| {
+    let via = || prop_oneof![3 => Just(0u8), 1 => Just(1u8), 2 => Just(2u8)];
+    (any::<[bool; 3]>(), mask(), mask(), mask(), prop::bool::weighted(0.7), [via(), via(), via()]).prop_map(|(mut present, a, b, c, all_present, via)| {
         if all_present {
             present = [true; 3];
         }
-        Side { present, masks: [a, b, c] }
+        Side { present, masks: [a, b, c], via }
     })
 }
 
@@ -175,9 +182,27 @@ async fn scenario(c: C33Case) -> Hist {
     let deadline = DeadlineQosPolicy { period: if c.deadline { dk_ms(200) } else { DurationKind::Infinite } };
     let keep_all = HistoryQosPolicy { kind: HistoryQosPolicyKind::KeepAll };
     // ---- writer side
-    let pa = f.create_participant(0, QosKind::Default, opt(c.writer.present[2], 2, &log), &mask_kinds(c.writer.masks[2])).await.unwrap();
+    // (listener, mask) handed to the create call for a level, per its install mode
+    let decoy_w = mask_kinds(bits(&WRITER_ST) | St::InconsistentTopic.bit());
+    let decoy_r = mask_kinds(bits(&READER_ST) | St::InconsistentTopic.bit());
+    let at_create = |s: &Side, lvl: usize, decoy: &Vec<dust_dds::infrastructure::status::StatusKind>| -> (Option<Rec>, Vec<dust_dds::infrastructure::status::StatusKind>) {
+        match s.via[lvl] {
+            0 => (opt(s.present[lvl], lvl as u8, &log), mask_kinds(s.masks[lvl])),
+            1 => (None, vec![]),
+            _ => (Some(Rec::new(9 + lvl as u8, &log)), decoy.clone()),
+        }
+    };
+    let (l, m) = at_create(&c.writer, 2, &decoy_w);
+    let pa = f.create_participant(0, QosKind::Default, l, &m).await.unwrap();
+    if c.writer.via[2] != 0 {
+        pa.set_listener(opt(c.writer.present[2], 2, &log), &mask_kinds(c.writer.masks[2])).await.unwrap();
+    }
     let ta = pa.create_topic::<KeyedData>("T", "KeyedData", QosKind::Default, None::<Rec>, NO_STATUS).await.unwrap();
-    let publ = pa.create_publisher(QosKind::Default, opt(c.writer.present[1], 1, &log), &mask_kinds(c.writer.masks[1])).await.unwrap();
+    let (l, m) = at_create(&c.writer, 1, &decoy_w);
+    let publ = pa.create_publisher(QosKind::Default, l, &m).await.unwrap();
+    if c.writer.via[1] != 0 {
+        publ.set_listener(opt(c.writer.present[1], 1, &log), &mask_kinds(c.writer.masks[1])).await.unwrap();
+    }
     let publ2 = pa.create_publisher(QosKind::Default, None::<Rec>, NO_STATUS).await.unwrap();
     let wq = DataWriterQos {
         reliability: ReliabilityQosPolicy { kind: ReliabilityQosPolicyKind::Reliable, max_blocking_time: dk_ms(100) },
@@ -185,20 +210,31 @@ async fn scenario(c: C33Case) -> Hist {
         deadline: deadline.clone(),
         ..Default::default()
     };
-    let w = match publ
-        .create_datawriter::<KeyedData>(&ta, QosKind::Specific(wq.clone()), opt(c.writer.present[0], 0, &log), &mask_kinds(c.writer.masks[0]))
-        .await
-    {
-        Ok(w) => w,
+    let (l, m) = at_create(&c.writer, 0, &decoy_w);
+    let w = match publ.create_datawriter::<KeyedData>(&ta, QosKind::Specific(wq.clone()), l, &m).await {
+        Ok(w) => {
+            if c.writer.via[0] != 0 {
+                w.set_listener(opt(c.writer.present[0], 0, &log), &mask_kinds(c.writer.masks[0])).await.unwrap();
+            }
+            w
+        }
         Err(e) => {
             h.setup_error = Some(format!("create_datawriter: {e:?}"));
             return h;
         }
     };
     // ---- reader side
-    let pb = f.create_participant(0, QosKind::Default, opt(c.reader.present[2], 2, &log), &mask_kinds(c.reader.masks[2])).await.unwrap();
+    let (l, m) = at_create(&c.reader, 2, &decoy_r);
+    let pb = f.create_participant(0, QosKind::Default, l, &m).await.unwrap();
+    if c.reader.via[2] != 0 {
+        pb.set_listener(opt(c.reader.present[2], 2, &log), &mask_kinds(c.reader.masks[2])).await.unwrap();
+    }
     let tb = pb.create_topic::<KeyedData>("T", "KeyedData", QosKind::Default, None::<Rec>, NO_STATUS).await.unwrap();
-    let sub = pb.create_subscriber(QosKind::Default, opt(c.reader.present[1], 1, &log), &mask_kinds(c.reader.masks[1])).await.unwrap();
+    let (l, m) = at_create(&c.reader, 1, &decoy_r);
+    let sub = pb.create_subscriber(QosKind::Default, l, &m).await.unwrap();
+    if c.reader.via[1] != 0 {
+        sub.set_listener(opt(c.reader.present[1], 1, &log), &mask_kinds(c.reader.masks[1])).await.unwrap();
+    }
     let sub2 = pb.create_subscriber(QosKind::Default, None::<Rec>, NO_STATUS).await.unwrap();
     let rq = DataReaderQos {
         reliability: ReliabilityQosPolicy { kind: ReliabilityQosPolicyKind::BestEffort, max_blocking_time: dk_ms(100) },
@@ -211,11 +247,14 @@ async fn scenario(c: C33Case) -> Hist {
         deadline: deadline.clone(),
         ..Default::default()
     };
-    let r = match sub
-        .create_datareader::<KeyedData>(&tb, QosKind::Specific(rq.clone()), opt(c.reader.present[0], 0, &log), &mask_kinds(c.reader.masks[0]))
-        .await
-    {
-        Ok(r) => r,
+    let (l, m) = at_create(&c.reader, 0, &decoy_r);
+    let r = match sub.create_datareader::<KeyedData>(&tb, QosKind::Specific(rq.clone()), l, &m).await {
+        Ok(r) => {
+            if c.reader.via[0] != 0 {
+                r.set_listener(opt(c.reader.present[0], 0, &log), &mask_kinds(c.reader.masks[0])).await.unwrap();
+            }
+            r
+        }
         Err(e) => {
             h.setup_error = Some(format!("create_datareader: {e:?}"));
             return h;
@@ -339,12 +378,22 @@ fn oracle(c: &C33Case, h: &Hist, res: &mut CaseResult) {
         res.harness_error = Some(format!("ground truth: W's publication_matched.total_count is {} (one compatible reader exists)", h.w_pub_matched_total));
         return;
     }
+    if c.reader.via.iter().chain(c.writer.via.iter()).any(|v| *v != 0) {
+        res.class("listener_installed_by_set_listener");
+    }
+    if let Some(call) = h.calls.iter().find(|c| c.level >= 9) {
+        res.fail(
+            format!("C33:{}:replaced-listener-called", call.status.name()),
+            format!("{} was delivered to the listener that set_listener had replaced before any status changed (level {})", call.status.name(), LEVEL[(call.level - 9) as usize]),
+        );
+        return;
+    }
     // calls by (entity, status)
     let mut by: BTreeMap<([u8; 16], St), Vec<&Call>> = BTreeMap::new();
     for call in &h.calls {
         by.entry((call.entity, call.status)).or_default().push(call);
     }
-    let chain_extra = |s: &Side| Side { present: [false, false, s.present[2]], masks: [0, 0, s.masks[2]] };
+    let chain_extra = |s: &Side| Side { present: [false, false, s.present[2]], masks: [0, 0, s.masks[2]], via: [0; 3] };
     let r_extra = chain_extra(&c.reader);
     let w_extra = chain_extra(&c.writer);
     // expected status changes per (entity, status)
@@ -369,7 +418,7 @@ fn oracle(c: &C33Case, h: &Hist, res: &mut CaseResult) {
     }
     let topic_sides: Option<(Side, Side)> = c.inconsistent_topic.map(|(present, enabled)| {
         let it = St::InconsistentTopic.bit();
-        let mk = |s: &Side| Side { present: [present, false, s.present[2]], masks: [if enabled { it } else { 0 }, 0, s.masks[2] & it] };
+        let mk = |s: &Side| Side { present: [present, false, s.present[2]], masks: [if enabled { it } else { 0 }, 0, s.masks[2] & it], via: [0; 3] };
         (mk(&c.writer), mk(&c.reader))
     });
     if let (Some((ha, hb)), Some((sa, sb))) = (h.h_topics, &topic_sides) {
